@@ -12,6 +12,9 @@ WellFormed(t0, g0, m0, t1, g1, m1) ==
   /\ (m0 = "" /\ m1 = "" => LET p0 == IF g0 = <<>> THEN <<"f0">> ELSE g0
                                 p1 == IF g1 = <<>> THEN <<"f1">> ELSE g1 IN p0 # p1)
   /\ ~(m0 = "inline" /\ m1 = "inline")
+  \* positional fields inlined at the top level would land in the ROOT's list part, which the map-typed generic
+  \* view of the whole config does not show (the pair observation of the other families does; here they stay nested)
+  /\ (m0 = "inline" => t0 \notin {Pos, PosMix}) /\ (m1 = "inline" => t1 \notin {Pos, PosMix})
   /\ (m0 = "inline" /\ t0.k = "map" => t0.e = T("string"))
   /\ (m1 = "inline" /\ t1.k = "map" => t1.e = T("string"))
   /\ (m0 = "inline" /\ m1 = "" => g1 \notin {<<"x">>, <<"y">>, <<"k">>})
